@@ -91,3 +91,216 @@ def category(msg):
 def cs20(msg):
     bits = need112(msg)
     return ident_chars(F.me(bits)[8:56])
+
+
+# ----------------------------------------------------------------------------- TC28 / TC29 / TC31 (C13)
+def tc28_me(msg):
+    bits = need112(msg)
+    if F.tc_of(bits) != 28:
+        raise RuntimeError("TC28 expected")
+    return F.me(bits)
+
+
+def is_emergency(msg):
+    """true exactly when an emergency state other than 'none' is reported (subtype 1)"""
+    me = tc28_me(msg)
+    subtype = F.field(me, 6, 8)
+    if subtype == 2:
+        raise RuntimeError("ACAS RA broadcast carries no emergency state")
+    return subtype == 1 and F.field(me, 9, 11) != 0
+
+
+def emergency_state(msg):
+    me = tc28_me(msg)
+    if F.field(me, 6, 8) == 2:
+        raise RuntimeError("ACAS RA broadcast carries no emergency state")
+    return F.field(me, 9, 11)
+
+
+def tc29_me(msg, subtype_wanted):
+    """ME field of a TC29 message of the wanted subtype (None = either)"""
+    bits = need112(msg)
+    if F.tc_of(bits) != 29:
+        raise RuntimeError("TC29 expected")
+    me = F.me(bits)
+    st = F.field(me, 6, 7)
+    if subtype_wanted == 1 and st == 0:
+        raise RuntimeError("version 1 message does not carry this field")
+    if subtype_wanted == 0 and st == 1:
+        raise RuntimeError("version 2 message does not carry this field")
+    return me
+
+
+# --- subtype 1 (DO-260B): 9 alt type, 10-20 selected altitude, 21-29 baro setting, 30 hdg status,
+#     31 hdg sign, 32-39 hdg, 47 mode status, 48 autopilot, 49 VNAV, 50 alt hold, 52 approach,
+#     53 TCAS operational, 54 LNAV
+def selected_altitude(msg):
+    me = tc29_me(msg, 1)
+    n = F.field(me, 10, 20)
+    src = "MCP/FCU" if F.bit(me, 9) == 0 else "FMS"
+    if n == 0:
+        return None, "N/A"
+    return (n - 1) * 32, src
+
+
+def baro_pressure_setting(msg):
+    me = tc29_me(msg, 1)
+    n = F.field(me, 21, 29)
+    x = 800 + (n - 1) * 0.8
+    return None if n == 0 else x
+
+
+def selected_heading(msg):
+    """angular weighted binary: sign bit = 180 degrees, 8 bits of 180/256 (full 0-360 range)"""
+    me = tc29_me(msg, 1)
+    x = F.bit(me, 31) * 180 + F.field(me, 32, 39) * 180 / 256
+    return None if F.bit(me, 30) == 0 else x
+
+
+def mode_flag(msg, pos):
+    me = tc29_me(msg, 1)
+    v = F.bit(me, pos) == 1
+    return None if F.bit(me, 47) == 0 else v
+
+
+def autopilot(msg):
+    return mode_flag(msg, 48)
+
+
+def vnav_mode(msg):
+    return mode_flag(msg, 49)
+
+
+def altitude_hold_mode(msg):
+    return mode_flag(msg, 50)
+
+
+def approach_mode(msg):
+    return mode_flag(msg, 52)
+
+
+def lnav_mode(msg):
+    return mode_flag(msg, 54)
+
+
+def tcas_operational(msg):
+    me = tc29_me(msg, None)
+    if F.field(me, 6, 7) == 0:
+        return F.bit(me, 52) == 0
+    return F.bit(me, 53) == 1
+
+
+# --- subtype 0 (DO-260A): 8-9 vertical source, 10 altitude type, 14-15 vertical mode, 16-25 target
+#     altitude, 26-27 horizontal source, 28-36 target angle, 37 angle type, 38-39 horizontal mode,
+#     52 TCAS not operational, 53 RA active, 54-56 emergency / priority
+def target_altitude(msg):
+    me = tc29_me(msg, 0)
+    avail = F.field(me, 8, 9)
+    ref = "FL" if F.bit(me, 10) == 0 else "MSL"
+    alt = -1000 + F.field(me, 16, 25) * 100
+    if avail == 0:
+        return None, "N/A", ""
+    if avail == 1:
+        src = "MCP/FCU"
+    elif avail == 2:
+        src = "Holding mode"
+    else:
+        src = "FMS/RNAV"
+    return alt, src, ref
+
+
+def vertical_mode(msg):
+    me = tc29_me(msg, 0)
+    v = F.field(me, 14, 15)
+    return None if v == 0 else v
+
+
+def horizontal_mode(msg):
+    me = tc29_me(msg, 0)
+    v = F.field(me, 38, 39)
+    return None if v == 0 else v
+
+
+def target_angle_value(msg):
+    """(angle or None, source label); the heading/track flag polarity is not asserted"""
+    me = tc29_me(msg, 0)
+    avail = F.field(me, 26, 27)
+    ang = F.field(me, 28, 36)
+    if avail == 0:
+        return None, "N/A"
+    if avail == 1:
+        src = "MCP/FCU"
+    elif avail == 2:
+        src = "Autopilot mode"
+    else:
+        src = "FMS/RNAV"
+    return ang, src
+
+
+def tcas_ra(msg):
+    me = tc29_me(msg, 0)
+    return F.bit(me, 53) == 1
+
+
+def emergency_status(msg):
+    me = tc29_me(msg, 0)
+    return F.field(me, 54, 56)
+
+
+# --- TC31 operational status / quality indicators
+def tc_me(msg, allowed):
+    bits = need112(msg)
+    tc = F.tc_of(bits)
+    ok = False
+    for a in allowed:
+        if tc == a:
+            ok = True
+    if not ok:
+        raise RuntimeError("type code not in the documented set")
+    return tc, F.me(bits)
+
+
+def version(msg):
+    tc, me = tc_me(msg, (31,))
+    return F.field(me, 41, 43)
+
+
+def nic_s(msg):
+    tc, me = tc_me(msg, (31,))
+    return F.bit(me, 44)
+
+
+def nic_a_c(msg):
+    tc, me = tc_me(msg, (31,))
+    return F.bit(me, 44), F.bit(me, 20)
+
+
+def nic_b(msg):
+    tc, me = tc_me(msg, (9, 10, 11, 12, 13, 14, 15, 16, 17, 18))
+    return F.bit(me, 8)
+
+
+def nac_p_category(msg):
+    tc, me = tc_me(msg, (29, 31))
+    return F.field(me, 40, 43) if tc == 29 else F.field(me, 45, 48)
+
+
+def sil_category(msg):
+    tc, me = tc_me(msg, (29, 31))
+    return F.field(me, 45, 46) if tc == 29 else F.field(me, 51, 52)
+
+
+def sil_supplement(msg):
+    tc, me = tc_me(msg, (29, 31))
+    return F.bit(me, 8) if tc == 29 else F.bit(me, 55)
+
+
+def nuc_v_category(msg):
+    tc, me = tc_me(msg, (19,))
+    return F.field(me, 11, 13)
+
+
+POSITION_TCS = (5, 6, 7, 8, 9, 10, 11, 12, 13, 14, 15, 16, 17, 18, 20, 21, 22)
+
+NUCP_OF_TC = {5: 9, 6: 8, 7: 7, 8: 6, 9: 9, 10: 8, 11: 7, 12: 6, 13: 5, 14: 4, 15: 3, 16: 2, 17: 1, 18: 0,
+              20: 9, 21: 8, 22: 0}
